@@ -453,6 +453,28 @@ func main() {
 	v, ok = se["eof"]
 	emit(&b, "gw_eof", "list N", coqBytes(v), coqBytes("\x00"), ok)
 
+	// the close-reason limit of truncateReason (webbridge/websocket.go): `const maxReason = 123`
+	mr, ok := func() (string, bool) {
+		_, f := parse("webbridge/websocket.go")
+		fd := findFunc(f, "truncateReason")
+		if fd == nil {
+			return "", false
+		}
+		res := ""
+		ast.Inspect(fd, func(n ast.Node) bool {
+			vs, is := n.(*ast.ValueSpec)
+			if !is || len(vs.Names) != 1 || vs.Names[0].Name != "maxReason" || len(vs.Values) != 1 {
+				return true
+			}
+			if v, ok := evalInt(vs.Values[0], nil); ok {
+				res = v.ExactString()
+			}
+			return true
+		})
+		return res, res != ""
+	}()
+	emit(&b, "ws_max_reason", "nat", mr, "123", ok)
+
 	sort.Strings(fallbacks)
 	fmt.Fprintf(&b, "\n(* fallbacks: %s *)\n", strings.Join(fallbacks, " "))
 
